@@ -91,8 +91,18 @@ def gen_strategy(r, cluster, opts, feasible=True):
         named = [x for x in anchor["resources"] if x["id"] and x["q"] > 0 and f"{x['name']}:any" in req]
         if named:
             x = r.choice(named)
-            del req[f"{x['name']}:any"]
+            keep_any = opts.get("p_mixed_request") and r.random() < opts["p_mixed_request"]
+            if not keep_any:
+                del req[f"{x['name']}:any"]
             req[f"{x['name']}:{x['id']}"] = r.randint(1, x["q"])
+            if keep_any:
+                # one request naming the type both by id and generically: only as much as the anchor worker can
+                # serve jointly when it is empty (on a busy worker the unchanged tree may fail half-way through
+                # such a request, KF-C04-mixed-any-and-specific-id; those runs crash and are not C08's business)
+                tot_ = worker_totals(anchor).get(x["name"], 0)
+                req[f"{x['name']}:any"] = max(1, min(req[f"{x['name']}:any"], tot_ - req[f"{x['name']}:{x['id']}"]))
+                if tot_ - req[f"{x['name']}:{x['id']}"] < 1:
+                    del req[f"{x['name']}:any"]
     if not feasible:
         n = r.choice(names)
         req[f"{n}:any"] = max(worker_totals(w).get(n, 0) for w in workers) + r.randint(1, 2)
